@@ -394,6 +394,13 @@ func VerifyFunc(w *World, fi *FuncInfo) (res *FuncResult) {
 			nloops++
 		case *ast.CallExpr:
 			calls[exprText(v.Fun)] = true
+			if len(v.Args) > 0 && fi.Pkg.P.TypesInfo != nil {
+				if tv, ok := fi.Pkg.P.TypesInfo.Types[v.Args[0]]; ok {
+					if n := typeName(pointee(tv.Type)); n != "" {
+						calls[exprText(v.Fun)+"<"+n+">"] = true
+					}
+				}
+			}
 		}
 		return true
 	})
@@ -472,6 +479,10 @@ func VerifyFunc(w *World, fi *FuncInfo) (res *FuncResult) {
 			oc := x.ctx(fr, out)
 			for _, g := range sp.Ghosts {
 				oc.execGhost(g, pvars, entry)
+			}
+			if len(sp.Ensures) > 0 {
+				// cover canary: some exit must be reachable, or the postconditions say nothing
+				x.oblige(out, "vacuity", "exit", nil, False, fi.Decl.Body.Rbrace, "the function exit is reachable")
 			}
 			for i, en := range sp.Ensures {
 				g := oc.specEval(en.Expr, out, entry, pvars)
@@ -562,6 +573,14 @@ func (x *Exec) frameObligations(fr *Frame, out, entry *State, sp *FuncSpec) {
 			}
 			now = x.load(out, k, T)
 			was = x.lazyInit(k, T, entryEpoch)
+			if strings.HasPrefix(k, "H:") {
+				// objects allocated by this function are not part of the caller's heap: the frame
+				// condition is about every other object
+				for _, r := range x.freshRefs {
+					r := r
+					was = zip2(was, now, func(w, n *Term) *Term { return Store(w, r, Select(n, r)) })
+				}
+			}
 		}
 		if sameValue(now, was) {
 			continue
